@@ -112,12 +112,12 @@ fn lower_idents(text: &str) -> Vec<String> {
   toks[start.min(toks.len())..].iter().filter(|t| t.kind == Kind::Lower).map(|t| t.text.clone()).collect()
 }
 
-struct Server {
-  state: ServerState,
-  mrs: HashMap<String, ModuleReference>,
+pub struct Server {
+  pub state: ServerState,
+  pub mrs: HashMap<String, ModuleReference>,
 }
 
-fn server_for(mods: &Mods) -> Result<Server, (String, String)> {
+pub fn server_for(mods: &Mods) -> Result<Server, (String, String)> {
   let mut heap = Heap::new();
   let texts: Vec<&str> = mods.iter().map(|(_, t)| t.as_str()).collect();
   let mut sources = HashMap::new();
